@@ -72,7 +72,7 @@ class C17(Prop):
     pid = "C17"
     prop_file = "Props/C17.v"
     module = "Props.C17"
-    gen_deps = ["Style", "WinconAnsi"]
+    gen_deps = ["Style", "WinconAnsi", "WinconAnsiFn"]
     harness = ("h-core", "hcore")
     nontrivial_rule = ("cases: all 17x17 colour pairs x fixed data (empty, ASCII, UTF-8, data with escape sequences, data ending inside a CSI / OSC / after ESC / inside a "
                        "multi-byte character) over Vec<u8>, std::fs::File and an accept-all Box<dyn Write>; all 17x17 pairs x short data x every accepted prefix length of the "
@@ -83,7 +83,9 @@ class C17(Prop):
     trusted = ["scripted inner writer of the harness (harness/h-core/src/c17.rs: one script entry per `write`, exhausted script accepts everything) "
                "mirrors Spec/Io.w_write",
                "std's default Write::write_all / write_fmt as described in Spec/Io.v (tied by the scripted runs: the call history is compared call by call)",
-               "translator plug-in tools/gen_wincon_ansi.py (shape of ansi.rs write_colored, RESET, one-fragment Display impls, list of WinconStream impls)"]
+               "translator plug-in tools/gen_wincon_ansi.py (RESET, one-fragment Display impls, list of WinconStream impls) and the function translator "
+               "tools/gen_fn_wincon_ansi.py + tools/rs2v (the body of ansi.rs write_colored, proved equal to the hand model in Proofs/WinconAnsiGen.v; vocabulary: "
+               "stream = the scripted writer, write!(stream, \"{}\", x) = write_all of the one fragment x displays as, io::Result = T + ekind)"]
     assumptions = ["non-Windows build: Stdout/Stderr and their locks are tied by the translator only (their impls delegate to ansi::write_colored); they are not executed",
                    "c17_interp: the accepted part of the data is parsed from Ground back to Ground and contains no SGR sequence of its own (explicit hypotheses)",
                    "c17_strip second part: the accepted part of the data is printable ASCII / TAB / LF / FF / CR"]
